@@ -181,7 +181,10 @@ def _call(args):
     func, idx, item = args
     _HORIZON_HITS[0] = 0
     try:
-        return idx, func(item), None
+        res = func(item)
+        if isinstance(res, Report):
+            res.compact()
+        return idx, res, None
     except BaseException as e:  # harness error inside a worker: never a silent pass
         return idx, None, f"{type(e).__name__}: {e}\n{traceback.format_exc()}"
 
@@ -254,7 +257,8 @@ class Report:
         self.n = {}  # named counters
         self.viol = []  # list of violation dicts (bounded)
         self.samples = []
-        self.sets = {}  # named sets of hashes (distinct counting)
+        self.sets = {}  # named sets of hashes (distinct counting inside one shard)
+        self.setcount = {}  # distinct counts of finished shards (shards explore disjoint sub-spaces, so counts add up)
         self.notes = {}
 
     MAXV = 40
@@ -278,6 +282,16 @@ class Report:
         if len(self.viol) < self.MAXV:
             self.viol.append({"sig": sig, "case": case, "count": 1})
 
+    def compact(self):
+        """Called when a shard is finished: keep the number of distinct keys, drop the keys (memory of long runs)."""
+        for k, v in self.sets.items():
+            self.setcount[k] = self.setcount.get(k, 0) + len(v)
+        self.sets = {}
+        return self
+
+    def distinct(self, name):
+        return self.setcount.get(name, 0) + len(self.sets.get(name, ()))
+
     def sample(self, s, cap=3):
         if len(self.samples) < cap:
             self.samples.append(s)
@@ -286,7 +300,9 @@ class Report:
         for k, v in other.n.items():
             self.n[k] = self.n.get(k, 0) + v
         for k, s in other.sets.items():
-            self.sets.setdefault(k, set()).update(s)
+            self.setcount[k] = self.setcount.get(k, 0) + len(s)
+        for k, c in other.setcount.items():
+            self.setcount[k] = self.setcount.get(k, 0) + c
         for v in other.viol:
             for w in self.viol:
                 if w["sig"] == v["sig"]:
@@ -376,19 +392,21 @@ def finish(prop: str, tier: str, rep: Report, t0: float, *, rule: str, bounds: d
             f.write(body)
         paths.append(p)
 
-    states = len(rep.sets.get("states", ())) or rep.n.get("states", 0)
+    states = rep.distinct("states") or rep.n.get("states", 0)
     cov = {
         "states": max(1, states),
         "transitions": max(1, rep.n.get("transitions", 0)),
         "traces_validated_against_impl": rep.n.get("executions", 0),
         "evaluations": max(1, rep.n.get("executions", 0)),
-        "distinct_nontrivial": len(rep.sets.get(nontrivial_key, ())) or rep.n.get(nontrivial_key, 0),
+        "distinct_nontrivial": rep.distinct(nontrivial_key) or rep.n.get(nontrivial_key, 0),
         "rule": rule,
         "samples": jsonable(rep.samples) or [{"note": "no sample recorded"}],
         "exhaustive": bool(exhaustive),
+        "distinct_counting": "states / distinct_nontrivial are sums over work shards of the number of distinct keys inside each shard; shards "
+                             "partition the space (by config, timeframe config, first letter ...), a key reached in two shards counts twice",
         "bounds": jsonable(bounds),
         "counters": {k: v for k, v in sorted(rep.n.items())},
-        "distinct": {k: len(v) for k, v in sorted(rep.sets.items())},
+        "distinct": {k: rep.distinct(k) for k in sorted(set(rep.sets) | set(rep.setcount))},
         "known_findings_matched": [{"key": v["sig"], "count": v["count"]} for v, _ in matched],
         "new_violation_signatures": [{"key": v["sig"], "count": v["count"]} for v in confirmed],
     }
